@@ -463,8 +463,7 @@ func run(cfg caseCfg, ops []op, tr *track.Tracker, lg *nullLogger) *runOut {
 						sp.feats["rf-nowh"] = true
 					}
 					if len(sp.body) > 0 || sp.nRF > 0 {
-						sp.feats["rf-after-write"] = true
-						sp.insaneIf(true, "readfrom-after-body")
+						sp.feats["rf-after-write"] = true // inside Sane since the repair: ReadFrom appends to what was written
 					}
 					sp.commit(h, 200)
 					sp.feats["rf"] = true
